@@ -281,6 +281,13 @@ def run(tier: str, seed: int) -> int:
         ops = []
         for _ in range(r.randint(3, max_ops)):
             ops.extend([("saveload",)] if r.random() < 0.12 else G.gen_ops(r, 1, saveload=True))
+        if r.random() < 0.4:
+            # a checkpoint taken early, play with an undo (so that redo history exists), the checkpoint loaded into the SAME
+            # engine, then redo / undo: a load clears both histories
+            i1 = r.randrange(0, max(1, len(ops) // 2))
+            ops[i1:i1] = [("save",)]
+            ops += [("choose_valid", r.randint(0, 5)), ("choose_valid", r.randint(0, 5)), ("undo",), ("load",),
+                    r.choice([("redo",), ("undo",)]), ("choose_valid", r.randint(0, 5))]
         both = run_both(story, ops, r)
         nontrivial = False
         for k, (op, om, ob, vm, vb, dm, db) in enumerate(both):
